@@ -129,22 +129,25 @@ def check_encoding(idx, name, form, T, v, e, tier, R):
                 verdict, info = one_shot(decname, ST.SeekableNB(core), spec)
                 if verdict:
                     report(R, verdict, info, dict(rec, presentation='seekable'), base | {'as:seekable'}, idx)
-                # (iii) non-blocking stream: k octets, two empty polls, then closed
-                R.evaluations += 1
-                if k:
-                    R.nontrivial((e, k, 'nb', decname, use_spec))
-                ev, partial = nonblocking(decname, prefix, spec)
-                bad = judge_nb(ev)
-                if bad:
-                    site = ev[-1][2] if ev and ev[-1][0] == 'exc' else 'streaming'
-                    if partial:
-                        base = base | {'partial_read_at_eof'}
-                    R.violation('nb.' + bad[0], dict(rec, presentation='nonblocking'),
-                                bad[1] + ' | events=' + ' '.join(x[0] + (':' + x[1] if x[0] == 'exc' else '') for x in ev),
-                                'underrun, underrun, then EndOfStreamError', site, base | {'as:nonblocking'}, idx)
-                else:
-                    for f in base:
-                        R.features[f] += 1
+                # (iii) non-blocking stream: k octets, two empty polls, then closed; seekable, and
+                # non-seekable behind the library's caching wrapper
+                for kind in ('seekable', 'nonseekable'):
+                    R.evaluations += 1
+                    if k:
+                        R.nontrivial((e, k, 'nb', kind, decname, use_spec))
+                    ev, partial = nonblocking(decname, prefix, spec, kind)
+                    bad = judge_nb(ev)
+                    if bad:
+                        site = ev[-1][2] if ev and ev[-1][0] == 'exc' else 'streaming'
+                        f3 = base | {'as:nonblocking', 'kind:' + kind}
+                        if partial:
+                            f3 = f3 | {'partial_read_at_eof'}
+                        R.violation('nb.' + bad[0], dict(rec, presentation='nonblocking', kind=kind),
+                                    bad[1] + ' | events=' + ' '.join(x[0] + (':' + x[1] if x[0] == 'exc' else '') for x in ev),
+                                    'underrun, underrun, then EndOfStreamError', site, f3, idx)
+                    else:
+                        for f in base:
+                            R.features[f] += 1
 
 
 def report(R, verdict, info, rec, feats, idx):
@@ -155,10 +158,15 @@ def report(R, verdict, info, rec, feats, idx):
                     pyasn1_site(info), feats, idx)
 
 
-def nonblocking(decname, prefix, spec):
+def nonblocking(decname, prefix, spec, kind='seekable'):
     """deliver all of prefix, then two pending polls while open, then end-of-stream."""
     core = ST.ScheduledCore(prefix, None, frontier=len(prefix), eof_pending=10 ** 6)
-    s = ST.SeekableNB(core)
+    if kind == 'nonseekable':
+        # the library would wrap the raw stream itself; do the same and observe what the decoder is handed
+        from pyasn1.codec import streaming as _streaming
+        s = ST.ObservedSeekable(_streaming.CachingStreamWrapper(ST.NonSeekableNB(core)))
+    else:
+        s = ST.ObservedSeekable(ST.SeekableNB(core))
     events = []
     try:
         it = iter(STREAMERS[decname](s, asn1Spec=spec))
@@ -186,7 +194,7 @@ def nonblocking(decname, prefix, spec):
     else:
         events.append(('livelock',))
     # did the closed stream keep answering with a non-empty but short read (known finding K6)?
-    return events, core.log.last_short
+    return events, s.last_short
 
 
 def judge_nb(ev):
@@ -293,7 +301,7 @@ def replay(case):
     elif p == 'seekable':
         verdict, info = one_shot(case['dec'], ST.SeekableNB(ST.ScheduledCore(prefix)), spec)
     else:
-        ev, partial = nonblocking(case['dec'], prefix, spec)
+        ev, partial = nonblocking(case['dec'], prefix, spec, case.get('kind', 'seekable'))
         bad = judge_nb(ev)
         return [{'clause': 'nb.' + bad[0], 'observed': bad[1], 'expected': 'underrun x2 then EndOfStreamError'}] if bad else []
     if verdict:
